@@ -29,8 +29,8 @@ ENUM = {
 }
 POOL = 12
 CHUNK = 4000
-RULE = ("enc: every (injective vocabulary of <= 3 of 5 (quick) / 6 (thorough) tags over terms sharing a name or a label, plus tags on terms sharing a URI under different names / a name under different URIs tags whose values differ only by surrounding whitespace and tags on terms that differ only in an extra attribute, tag list of <= 3 with "
-        "repeats and outsiders, two quarter-score patterns) of the TLA+ enumeration, plus random vocabularies of <= 8 of 19 "
+RULE = ("enc: every (injective vocabulary of <= 3 of 5 (quick) / 6 (thorough) tags over terms sharing a name or a label, plus tags on terms sharing a URI under different names / a name under different URIs tags whose values differ only by surrounding whitespace tags on terms that differ only in an extra attribute and tags on terms with every optional field set (the aliased type / range included), tag list of <= 3 with "
+        "repeats and outsiders, two quarter-score patterns) of the TLA+ enumeration, plus random vocabularies of <= 8 of 21 "
         "tags with lists of <= 8; pair: every ordered pair of freshly built objects of the eight hashable classes over two- to "
         "four-value field domains, plus model-equal (quick) / at most one field apart (thorough) pairs whose members were "
         "derived from an already hashed object by model_copy(update), attribute assignment, deep copy or a dump/validate "
@@ -54,10 +54,18 @@ _TERMS = [
     dict(name="n4", label="l4", definition="d", uri="u2"),   # T7  T5's name and label under another URI
     dict(name="n1", label="l1", definition="d", status="draft"),   # T8  T1 in every declared field + an extra attribute
     dict(name="n1", label="l1", definition="d", status="final"),   # T9  ... with another value
+    # T10: every optional Term field set; the two aliased ones (written "type" / "range") away from their defaults
+    dict(name="n6", label="l6", definition="d", uri="u6", type="class", comment="c", see="s", subproperty_of="sp",
+         subclass_of="sc", domain="dm", domain_includes="di", range="xsd:string", range_includes="ri", member_of="mo",
+         instance_of="io", equivalent_property="ep", description="ds", scope_note="sn"),
+    # T11: T10 with the default type_of_term
+    dict(name="n6", label="l6", definition="d", uri="u6", comment="c", see="s", subproperty_of="sp",
+         subclass_of="sc", domain="dm", domain_includes="di", range="xsd:string", range_includes="ri", member_of="mo",
+         instance_of="io", equivalent_property="ep", description="ds", scope_note="sn"),
 ]
 _VALUES = ["a", "b", "c", "a ", " a"]          # the last two differ from "a" only by surrounding whitespace
 _UTAG = [(1, 1), (1, 2), (2, 1), (3, 1), (4, 1), (4, 2), (2, 2), (3, 2), (1, 3), (2, 3), (3, 3), (4, 3),
-         (5, 1), (6, 1), (7, 1), (1, 4), (1, 5), (8, 1), (9, 1)]
+         (5, 1), (6, 1), (7, 1), (1, 4), (1, 5), (8, 1), (9, 1), (10, 1), (11, 1)]
 
 
 _WRITE = {"explicit": False, "extras": None}      # how terms / objects are written down inside a _written(...) block
@@ -112,7 +120,8 @@ def _which(tag):
     for u, (t, v) in enumerate(_UTAG, start=1):
         d = _TERMS[t - 1]
         if (tag.value == _VALUES[v - 1] and tag.term.name == d["name"] and tag.term.label == d["label"]
-                and tag.term.uri == d.get("uri") and (tag.term.model_extra or {}).get("status") == d.get("status")):
+                and tag.term.uri == d.get("uri") and (tag.term.model_extra or {}).get("status") == d.get("status")
+                and tag.term.type_of_term == d.get("type", "property")):
             return u
     return 0
 
@@ -138,6 +147,7 @@ def _enc(case):
     enc = [_opt(encoder.encode(_tag(u, q))) for u in range(1, len(_UTAG) + 1)]
     dec = [_which(encoder.decode(k)) for k in range(len(vocab))]
     encdec = [_opt(encoder.encode(encoder.decode(k))) for k in range(len(vocab))]
+    deq = [bool(encoder.decode(k) == _tag(u, vp)) for k, u in enumerate(vocab)]       # decode(k) == the k-th vocabulary tag
     # observed equality of every universe tag (written as a query) with every vocabulary tag, and inside the vocabulary
     vtags = [_tag(u, vp) for u in vocab]
     qeq = [[bool(_tag(u, q) == vt) for vt in vtags] for u in range(1, len(_UTAG) + 1)]
@@ -145,7 +155,7 @@ def _enc(case):
     cls, multi, pred = _three(encoder, tags, scs, q)
     # the same list without its out-of-vocabulary members: given by the case, checked by the specification
     f_cls, f_multi, f_pred = _three(encoder, case["ftags"], case["fscs"], q)
-    return {"num": int(encoder.num_classes), "enc": enc, "dec": dec, "encdec": encdec, "qeq": qeq, "veq": veq,
+    return {"num": int(encoder.num_classes), "enc": enc, "dec": dec, "encdec": encdec, "deq": deq, "qeq": qeq, "veq": veq,
             "cls": cls, "multi": multi, "pred": pred, "f_cls": f_cls, "f_multi": f_multi, "f_pred": f_pred}
 
 
@@ -263,13 +273,13 @@ def execute(case):
 
 
 def random_cases(rng, tier):
-    """Larger vocabularies (<= 8 of all 19 universe tags) and longer lists (<= 8) than TLC enumerates."""
+    """Larger vocabularies (<= 8 of all 21 universe tags) and longer lists (<= 8) than TLC enumerates."""
     n = 1500 if tier == "quick" else 15000
     for _ in range(n):
         nv = rng.randrange(0, 9)
-        vocab = rng.sample(range(1, 20), nv)
+        vocab = rng.sample(range(1, 22), nv)
         lt = rng.randrange(0, 9)
-        pool = vocab if (vocab and rng.random() < 0.3) else list(range(1, 20))
+        pool = vocab if (vocab and rng.random() < 0.3) else list(range(1, 22))
         tags = [rng.choice(pool) for _ in range(lt)]
         if tags and rng.random() < 0.5:           # force repeats
             tags[rng.randrange(lt)] = tags[0]
@@ -299,9 +309,9 @@ MANIFEST = {
              "(constructor; hashed donor then model_copy(update) / attribute assignment; hashed then deep copy / dump-validate "
              "round trip; constructor with every optional field passed explicitly), and vocabulary / query tags of the encoders "
              "written differently, so a hash that remembers a derivation or sees which fields were set is refuted (controls "
-             "history/MC_Encoding_hash_memo, _hash_fields_set, _hash_extras_order, _eq_uri, _eq_nan, _key_strip_value, _hash_note_iso, _key_declared_fields; Terms also carry two extra "
+             "history/MC_Encoding_hash_memo, _hash_fields_set, _hash_extras_order, _eq_uri, _eq_nan, _key_strip_value, _hash_note_iso, _key_declared_fields, _decode_redump; Terms also carry two extra "
              "attributes given in either order; the encoder is also judged against the OBSERVED equality "
-             "of query and vocabulary tags, EncodeIffObservedEqual) -- plus random vocabularies of <= 8 of 19 tags "
+             "of query and vocabulary tags, EncodeIffObservedEqual) -- plus random vocabularies of <= 8 of 21 tags "
              "with lists of <= 8, and TLC validates the observations clause by clause."),
     "note": ("trusted: TLC, binder checks/c19.py (encoder; objects rebuilt for every use so identity cannot help); the hash "
              "clause is the contract, not the projection: different but sound hashes pass (mutants/C19/must_pass)"),
